@@ -23,7 +23,7 @@ from hed.validator.hed_validator import HedValidator
 
 astpatch.is_to_eq(HedString, "split_into_groups")   # `is '('` -> `== '('` (see vp/astpatch.py, as in C02)
 
-_HARDWIRE_KNOWN = True       # while developing: exclusions active without known_findings.json
+_HARDWIRE_KNOWN = False      # while developing: exclusions active without known_findings.json
 
 
 def _known(fid, verdict):
@@ -131,7 +131,7 @@ def subtag_messages(t: str, i: int, j: int) -> bool:
 
 
 # ------------------------------------------------------------------ 2. whole-tag / group issues, combined strings
-def _whole_ok(text, ctx, item, entry):
+def _whole_ok(text, ctx, item, entry, span=None):
     typ, code, sev, parts = entry
     eh = _handler(ctx)
     issues = eh.format_error_with_context(typ, item)
@@ -144,6 +144,8 @@ def _whole_ok(text, ctx, item, entry):
         return False
     ci, ce = iss["char_index"], iss["char_index_end"]
     if not (0 <= ci <= ce <= len(text)):
+        return False
+    if span is not None and (ci != span[0] or ce != span[1]):     # exactly the named item's span
         return False
     quoted = item.org_tag if isinstance(item, HedTag) else item.get_original_hed_string()
     if text[ci:ce] != quoted:
@@ -166,12 +168,10 @@ def whole_tag_offsets(s: str) -> bool:
     k = R.env_int("VP_K", 2)
     for tag in h.get_all_tags():
         a, b = tag.span
-        if not _whole_ok(s, h, tag, M.WHOLE[k]):
-            return False
-        if not (0 <= a <= b <= len(s)):
+        if not (0 <= a <= b <= len(s)) or not _whole_ok(s, h, tag, M.WHOLE[k], (a, b)):
             return False
     for g in _empty_groups(h):                               # the only groups the validator names in an issue
-        if not _whole_ok(s, h, g, M.WHOLE[0]):
+        if not _whole_ok(s, h, g, M.WHOLE[0], g.span):
             return False
     return True
 
